@@ -1077,6 +1077,27 @@ def move_imports_to_toplevel(source: str) -> str:
             node for node in toplevel_imports if node.lineno > first_def_lineno
         )
 
+    # A name that means something else somewhere in the module (another variable, function or
+    # class, or an import of something else) must not be rebound for the whole module.
+    other_bindings = tracing.get_defined_names(root)
+    import_meanings = collections.defaultdict(set)
+    for node in all_imports:
+        module = (node.level, node.module) if isinstance(node, ast.ImportFrom) else None
+        for alias in node.names:
+            if module is None and alias.asname is None:
+                import_meanings[alias.name.split(".")[0]].add(None)
+            else:
+                import_meanings[alias.asname or alias.name].add((module, alias.name))
+    imports_movable_to_toplevel = {
+        node
+        for node in imports_movable_to_toplevel
+        if all(
+            name not in other_bindings and len(import_meanings[name]) == 1
+            for alias in node.names
+            for name in [alias.asname or alias.name.split(".")[0]]
+        )
+    }
+
     for i, node in enumerate(root.body):
         if i > 0 and not isinstance(node, (ast.Import, ast.ImportFrom)):
             lineno = min(x.lineno for x in core.walk(node, ast.AST(lineno=int))) - 1
